@@ -353,7 +353,7 @@ impl<'a> Printer<'a> {
     }
     fn cert(&self, c: &CertTruth) -> String {
         let subject = c.subject.as_ref().and_then(|s| self.ca_index.get(s)).copied().unwrap_or(0);
-        format!("{{| c_key := {}; c_subject := {}; c_decodes := {}; c_sig_ok := {}; c_res_within := {}; c_valid_now := {}; c_crl_uri_ok := {}; c_serial := {}; c_ranges := {} |}}",
+        format!("(Build_cert {} {} {} {} {} {} {} {} {})",
                 c.key, subject, coq_bool(c.decodes), coq_bool(c.sig_ok), coq_bool(c.res_within), coq_bool(c.valid_now),
                 coq_bool(c.crl_uri_ok), c.serial, self.ranges(&c.effective))
     }
@@ -377,12 +377,11 @@ impl<'a> Printer<'a> {
     }
     fn version(&self, v: &VersionTruth) -> String {
         let entries = coq_list(v.entries.iter().enumerate(), |(i, e)| format!(
-            "{{| e_name := {}; e_ext := {}; e_listed := {}; e_present := {}; e_hash_ok := {}; e_obj := {} |}}",
+            "(Build_entry {} {} {} {} {} ({}))",
             i, Self::ext(&e.name), coq_bool(e.listed), coq_bool(e.present), coq_bool(e.hash_ok), self.obj(&e.obj)));
         let m = &v.mft;
         let c = &v.crl;
-        format!("{{| v_id := {}; m_present := {}; m_decodes := {}; m_content_sig_ok := {}; m_ee := {}; m_number := {}; m_this := {}; m_next := {}; \
-                 crl_listed := {}; crl_present := {}; crl_hash_ok := {}; crl_decodes := {}; crl_sig_ok := {}; crl_next := {}; crl_revoked := {}; entries := {} |}}",
+        format!("(Build_version {} {} {} {} {} {} {} {} {} {} {} {} {} {} {} {})",
                 self.vids[&m.sha256], coq_bool(m.present), coq_bool(m.decodes), coq_bool(m.content_sig_ok), self.cert(&m.ee), m.number,
                 z(m.this_update), z(m.next_update), coq_bool(c.listed), coq_bool(c.present), coq_bool(c.hash_ok), coq_bool(c.decodes),
                 coq_bool(c.sig_ok), z(c.next_update), coq_nlist(c.revoked.iter()), entries)
@@ -397,11 +396,11 @@ impl<'a> Printer<'a> {
         let tals = coq_list(self.truth.tals.iter().enumerate(), |(ti, t)| {
             let uris = coq_list(t.uris.iter().enumerate(), |(ui, u)| {
                 let c = &u.certs[plan.step.min(u.certs.len() - 1)];
-                format!("{{| u_id := {}; u_fetched := {} |}}", ti * 100 + ui + 1, coq_opt(c.as_ref().map(|c| format!("({})", self.cert(c)))))
+                format!("(Build_ta_uri {} {})", ti * 100 + ui + 1, coq_opt(c.as_ref().map(|c| format!("({})", self.cert(c)))))
             });
-            format!("{{| t_key := {}; t_uris := {} |}}", t.key, uris)
+            format!("(Build_tal {} {})", t.key, uris)
         });
-        format!("{{| ri_collected := [{}]; ri_tals := {} |}}", collected.join("; "), tals)
+        format!("(Build_run_in [{}] {})", collected.join("; "), tals)
     }
     fn obs(&self, o: &RunOutcome) -> String {
         let mut items: Vec<String> = o.payload.origins.iter().map(|r| format!("IVrp {} {} {} {} {}", coq_bool(r.v4), r.addr, r.len, r.max_len, r.asn)).collect();
@@ -412,13 +411,13 @@ impl<'a> Printer<'a> {
             let ca = self.truth.cas.iter().position(|c| c.mft_uri == p.manifest_uri)?;
             Some(format!("({}, {})", ca, self.vids.get(sha).copied().unwrap_or(999_999)))
         }).collect();
-        format!("{{| ob_ok := {}; ob_payload := [{}]; ob_store := [{}] |}}", coq_bool(o.result == "ok"), items.join("; "), store.join("; "))
+        format!("(Build_run_obs {} [{}] [{}])", coq_bool(o.result == "ok"), items.join("; "), store.join("; "))
     }
 }
 
 fn coq_cfg(c: &RunCfg) -> String {
     let o = |x: Option<u8>| coq_opt(x.map(|v| v.to_string()));
-    format!("{{| stale_reject := {}; unsafe_reject := {}; bgpsec := {}; aspa := {}; max_depth := {}%nat; lim4 := {}; lim6 := {} |}}",
+    format!("(Build_cfg {} {} {} {} {}%nat {} {})",
             coq_bool(c.stale == "reject"), coq_bool(c.unsafe_vrps == "reject"), coq_bool(c.enable_bgpsec), coq_bool(c.enable_aspa),
             c.max_ca_depth, o(c.limit_v4_len), o(c.limit_v6_len))
 }
@@ -448,7 +447,7 @@ fn run(input: &Value) -> CaseOut {
         }
     }
     let pkeys = coq_list(world.built.truth.cas.iter().enumerate(), |(i, c)| format!("({}, {})", i, c.key));
-    let coq = format!("{{| k_cfg := {}; k_pkeys := {}; k_runs := {}; k_obs := {} |}}",
+    let coq = format!("(Build_case {} {} {} {})",
                       coq_cfg(&cfg), pkeys, coq_list(plans.iter(), |p| printer.run_in(p)), coq_list(outs.iter(), |o| printer.obs(o)));
     let nontrivial = outs.iter().any(|o| !o.payload.origins.is_empty() || !o.payload.aspas.is_empty() || !o.payload.router_keys.is_empty());
     let obs = json!({"runs": outs.iter().map(|o| json!({
